@@ -1287,7 +1287,13 @@ func (g *gen) genOp(name string) {
 		if len(keys) == 0 {
 			return
 		}
-		g.emitDelete(KPod, keys[g.pick(len(keys))], "pod gone before its endpoint")
+		// (all the pods of one service: a node that went away)
+		victim := g.objs[KPod][keys[g.pick(len(keys))]].(*api.Pod)
+		for _, k := range keys {
+			if p := g.objs[KPod][k].(*api.Pod); p.Namespace == victim.Namespace && p.Labels["app"] == victim.Labels["app"] {
+				g.emitDelete(KPod, k, "pod gone before its endpoint")
+			}
+		}
 	case "pod_term":
 		keys := g.keys(KPod)
 		if len(keys) == 0 {
